@@ -456,6 +456,13 @@ impl PoolMachine {
             return Err(("redeem-burned-other-amount".into(), format!("{what}: handed in {} units, account lost {}", show(&units), show(&burned))));
         }
         let paid: Vec<BigInt> = (0..n).map(|i| &post.acct[i] - &pre.acct[i]).collect();
+        if pre.s.is_zero() {
+            // nothing in circulation: only an empty bucket can be handed in, and it must be worth nothing
+            if paid.iter().any(|p| !p.is_zero()) {
+                return Err(("redeem-pays-more-than-share".into(), format!("{what}: no units in circulation but redeem paid {}", show_all(&paid))));
+            }
+            return Ok("redeem:ok:nothing-for-nothing".into());
+        }
         for i in 0..n {
             if paid[i].is_negative() {
                 return Err(("redeem-took-from-redeemer".into(), format!("{what}: redeemer lost {} of resource {i}", show(&-&paid[i]))));
